@@ -133,6 +133,11 @@ def eio_create_event(eng, ctx, args, kwargs):
     e = smt.fresh('event', V)
     evs = ctx.st.get('g', 'events')
     ctx.assume(e != NONE, smt.truthy(e), smt.kind(e) == smt.K_OTHER, z3.Not(evs.c['.'][e]))
+    for f_ in ('_reconnect_abort', '_connect_event'):
+        try:
+            ctx.assume(e != ctx.st.get('client', f_).leaf())      # a new object: none of the events the client already holds
+        except Exception:
+            pass
     yield ctx, S(e)
 
 
